@@ -137,10 +137,13 @@ package synchronization
 // ------------------------------------------------- flush acknowledgment
 //
 // In the synchronization loop a flush request, once received, is remembered
-// until acknowledged; the acknowledgment is the value nil, sent on the
-// request channel that was received from the controller's flush-request
-// channel, at the end of a cycle whose scans were started with the full-scan
-// flag set and whose transitions and archive update reported no error.
+// (loop variable flushRequest, assigned only by the receive from the
+// controller's flush-request channel and cleared after the acknowledgment -
+// by inspection) until acknowledged; the only send statement of the loop is
+// the acknowledgment: the value nil, sent on the pending request, at the end
+// of a cycle whose scans were started with the full-scan flag set and whose
+// transitions and archive update (withBeta: the change list of the cycle,
+// bound in zz_contracts_archive_verif.go) reported no error.
 //@ func (*controller).synchronize
 //@   at call send assert[flushack] arg0 == flushRequest && flushRequest != nil && arg1 == nil
 //@   at call send assert[flushack] forceFullScan && αTransitionErr == nil && βTransitionErr == nil
